@@ -8,6 +8,7 @@
 (*     [k |-> "s" | "v", n |-> squarefree radicand >= 1, d |-> denominator,   *)
 (*      x |-> <<ints>>, dx |-> <<ints>>]        (1 entry: scalar, 3: vector)  *)
 (* normalised by Mk: gcd(d, all x, all dx) = 1, the zero value has n = d = 1. *)
+(* A negative radicand n stands for i * sqrt(|n|) (scalars only).             *)
 (* Surds are needed for norms; every operator is closed on this domain or     *)
 (* answers Undef (sum of two different radicands, a magnitude that could      *)
 (* overflow TLC's 32 bit integers, 1/0, norm of 0 with a non-zero             *)
@@ -29,7 +30,7 @@ IsS(v) == v.k = "s"
 SeqMaxAbs(s) == IF Len(s) = 1 THEN AbsI(s[1])
                 ELSE MaxI(AbsI(s[1]), MaxI(AbsI(s[2]), AbsI(s[3])))
 MaxAll(v) == MaxI(SeqMaxAbs(v.x), SeqMaxAbs(v.dx))
-Fits(v) == ~IsU(v) /\ v.d <= CompBound /\ v.n <= CompBound /\ MaxAll(v) <= CompBound
+Fits(v) == ~IsU(v) /\ v.d <= CompBound /\ AbsI(v.n) <= CompBound /\ MaxAll(v) <= CompBound
 \* terms * g * a * b cannot overflow
 ProdOK(terms, g, a, b) == a = 0 \/ b = 0 \/ a <= (Lim32 \div (terms * g)) \div b
 
@@ -55,9 +56,11 @@ VecD(p, dp)  == Mk("v", 1, 1, p, dp)
 ValOf(v)  == IF IsU(v) THEN Undef ELSE Mk(v.k, v.n, v.d, v.x, Zeros(Len(v.x)))
 DualOf(v) == IF IsU(v) THEN Undef ELSE Mk(v.k, v.n, v.d, v.dx, Zeros(Len(v.x)))
 
-\* sqrt(n1) * sqrt(n2) = RadG * sqrt(RadN) for squarefree n1, n2
-RadG(n1, n2) == GCD(n1, n2)
-RadN(n1, n2) == (n1 \div GCD(n1, n2)) * (n2 \div GCD(n1, n2))
+\* sqrt(n1) * sqrt(n2) = RadG * sqrt(RadN) for squarefree n1, n2.  A negative radicand stands for the principal
+\* root i sqrt(|n|) (scalar equations evaluated at negative values): sqrt(-a) sqrt(-b) = -sqrt(a b)
+RadG(n1, n2) == GCD(AbsI(n1), AbsI(n2)) * (IF n1 < 0 /\ n2 < 0 THEN -1 ELSE 1)
+RadN(n1, n2) == LET g == GCD(AbsI(n1), AbsI(n2)) IN
+                (AbsI(n1) \div g) * (AbsI(n2) \div g) * (IF (n1 < 0) # (n2 < 0) THEN -1 ELSE 1)
 
 \* s = SqM(s)^2 * SqR(s), SqR squarefree, for 0 < s <= NormBound
 SqM(s) == LET lim == IF s <= 10000 THEN 100 ELSE 1000
@@ -83,7 +86,7 @@ Add(u, v) ==
 Mul(s, v) ==
   IF ~Fits(s) \/ ~Fits(v) \/ ~IsS(s) THEN Undef
   ELSE LET g == RadG(s.n, v.n) IN
-       IF ~ProdOK(2, g, MaxAll(s), MaxAll(v)) THEN Undef ELSE
+       IF ~ProdOK(2, AbsI(g), MaxAll(s), MaxAll(v)) THEN Undef ELSE
        Mk(v.k, RadN(s.n, v.n), s.d * v.d,
           [i \in DOMAIN v.x |-> g * (s.x[1] * v.x[i])],
           [i \in DOMAIN v.x |-> g * (s.dx[1] * v.x[i] + s.x[1] * v.dx[i])])
@@ -91,7 +94,7 @@ Mul(s, v) ==
 Dot(u, v) ==
   IF ~Fits(u) \/ ~Fits(v) \/ ~IsV(u) \/ ~IsV(v) THEN Undef
   ELSE LET g == RadG(u.n, v.n) IN
-       IF ~ProdOK(6, g, MaxAll(u), MaxAll(v)) THEN Undef ELSE
+       IF ~ProdOK(6, AbsI(g), MaxAll(u), MaxAll(v)) THEN Undef ELSE
        Mk("s", RadN(u.n, v.n), u.d * v.d,
           <<g * (u.x[1] * v.x[1] + u.x[2] * v.x[2] + u.x[3] * v.x[3])>>,
           <<g * (u.dx[1] * v.x[1] + u.dx[2] * v.x[2] + u.dx[3] * v.x[3]
@@ -101,7 +104,7 @@ C3(p, q, i) == LET j == (i % 3) + 1  m == ((i + 1) % 3) + 1 IN p[j] * q[m] - p[m
 Cross(u, v) ==
   IF ~Fits(u) \/ ~Fits(v) \/ ~IsV(u) \/ ~IsV(v) THEN Undef
   ELSE LET g == RadG(u.n, v.n) IN
-       IF ~ProdOK(4, g, MaxAll(u), MaxAll(v)) THEN Undef ELSE
+       IF ~ProdOK(4, AbsI(g), MaxAll(u), MaxAll(v)) THEN Undef ELSE
        Mk("v", RadN(u.n, v.n), u.d * v.d,
           [i \in 1..3 |-> g * C3(u.x, v.x, i)],
           [i \in 1..3 |-> g * (C3(u.dx, v.x, i) + C3(u.x, v.dx, i))])
@@ -111,7 +114,7 @@ Mixed(a, b, c) == Dot(a, Cross(b, c))
 
 \* |v| = sqrt(n) sqrt(x.x) / d ;  d|v| = (v . dv) / |v|
 NormV(v) ==
-  IF ~Fits(v) \/ ~IsV(v) \/ SeqMaxAbs(v.x) > 1000 THEN Undef
+  IF ~Fits(v) \/ ~IsV(v) \/ v.n < 0 \/ SeqMaxAbs(v.x) > 1000 THEN Undef
   ELSE LET s  == v.x[1] * v.x[1] + v.x[2] * v.x[2] + v.x[3] * v.x[3]
            ds == v.x[1] * v.dx[1] + v.x[2] * v.dx[2] + v.x[3] * v.dx[3]
        IN IF s = 0 THEN (IF AllZero(v.dx) THEN IntS(0) ELSE Undef)
@@ -123,8 +126,9 @@ NormV(v) ==
 \* 1 / s ;  d(1/s) = -ds / s^2
 Inv(s) ==
   IF ~Fits(s) \/ ~IsS(s) THEN Undef
-  ELSE IF s.x[1] = 0 \/ ~ProdOK(1, s.n, AbsI(s.x[1]), AbsI(s.x[1])) THEN Undef
-  ELSE Mk("s", s.n, s.x[1] * s.x[1] * s.n, <<s.d * s.x[1]>>, <<-(s.dx[1] * s.d)>>)
+  ELSE IF s.x[1] = 0 \/ ~ProdOK(1, AbsI(s.n), AbsI(s.x[1]), AbsI(s.x[1])) THEN Undef
+  ELSE LET sg == IF s.n < 0 THEN -1 ELSE 1 IN      \* sqrt(n) sqrt(n) = n also for n < 0; keep the denominator positive
+       Mk("s", s.n, s.x[1] * s.x[1] * AbsI(s.n), <<sg * s.d * s.x[1]>>, <<-(sg * s.dx[1] * s.d)>>)
 
 RECURSIVE PowNat(_, _)
 PowNat(s, e) == IF e = 0 THEN IntS(1) ELSE IF e = 1 THEN s ELSE Mul(s, PowNat(s, e - 1))
@@ -133,23 +137,23 @@ Pow(s, e) ==
   ELSE IF e >= 0 THEN PowNat(s, e) ELSE PowNat(Inv(s), -e)
 
 AbsS(s) ==
-  IF IsU(s) \/ ~IsS(s) THEN Undef
+  IF IsU(s) \/ ~IsS(s) \/ s.n < 0 THEN Undef
   ELSE IF s.x[1] > 0 THEN s
   ELSE IF s.x[1] < 0 THEN Neg(s)
   ELSE IF s.dx[1] = 0 THEN s ELSE Undef
 
 \* square root of a non-negative rational x/d = sqrt(x d)/d ;  d sqrt(s) = ds / (2 sqrt(s))
 SqrtS(s) ==
-  IF ~Fits(s) \/ ~IsS(s) \/ s.n # 1 \/ s.x[1] < 0 THEN Undef
+  IF ~Fits(s) \/ ~IsS(s) \/ s.n # 1 THEN Undef
   ELSE IF s.x[1] = 0 THEN (IF s.dx[1] = 0 THEN s ELSE Undef)
-  ELSE LET q == s.x[1] * s.d IN
+  ELSE LET q == AbsI(s.x[1]) * s.d  sg == IF s.x[1] < 0 THEN -1 ELSE 1 IN      \* sqrt(-q) = i sqrt(q): radicand -r
        IF q > NormBound THEN Undef
        ELSE LET m == SqM(q)  r == SqR(q) IN
             IF ~ProdOK(2, 1, m * r, s.d) THEN Undef
-            ELSE Mk("s", r, 2 * s.d * m * r, <<2 * m * m * r>>, <<s.dx[1] * s.d>>)
+            ELSE Mk("s", sg * r, 2 * s.d * m * r, <<2 * m * m * r>>, <<sg * s.dx[1] * s.d>>)
 
 SignS(s) ==
-  IF IsU(s) \/ ~IsS(s) \/ s.x[1] = 0 THEN Undef
+  IF IsU(s) \/ ~IsS(s) \/ s.n < 0 \/ s.x[1] = 0 THEN Undef
   ELSE IntS(IF s.x[1] > 0 THEN 1 ELSE -1)
 
 \* values are equal / opposite
